@@ -28,10 +28,10 @@ def searchRec : IO Unit := do
   for ks in [0, 1, 255, 256, 65535] do
     for vs in grid32 do
       if vs < 2^31 then
-        let c := (Funcs.kvSize (BitVec.ofNat 16 ks) (BitVec.ofNat 32 vs)).toNat
+        let c := (Funcs.kvSize (f_keySize := BitVec.ofNat 16 ks) (f_valueSize := BitVec.ofNat 32 vs)).toNat
         if c ≠ ks + vs then report "slot.kvSize" s!"keySize={ks} valueSize={vs}" (toString c) (toString (ks + vs))
   for vs in grid32 do
-    let c := Funcs.deleteBitGuard (BitVec.ofNat 32 vs)
+    let c := Funcs.deleteBitGuard (v_valueSize := BitVec.ofNat 32 vs)
     let m := decide (2^31 ≤ vs)
     if c ≠ m then report "deleteBit" s!"valueSizeWord={vs}" (toString c) (toString m)
 
